@@ -20,4 +20,19 @@ ENTRIES = [
     ("c04_choked_checks_stalled", "src/protocol/request_list.cc",
      r"if \(m_queues\.queue_empty\(bucket_queued\) && m_queues\.queue_empty\(bucket_unordered\)( && m_queues\.queue_empty\(bucket_stalled\))?\)\s*return;",
      "N", lambda m: 1 if m.group(1) else 0),
+    # (A) PeerConnection<>::update_interested queues the connection in the download choke queue when the peer has us unchoked
+    ("c04_update_interested_queues", "src/protocol/peer_connection_leech.cc",
+     r"PeerConnection<type>::update_interested\(\) \{.*?m_down_interested = true;\s*(?://[^\n]*\n\s*)*(if \(m_down_unchoked\)\s*m_download->choke_group\(\)->down_queue\(\)->set_queued\(this, &m_down_choke\);)?\s*(?://[^\n]*\n\s*)*\}",
+     "N", lambda m: 1 if m.group(1) else 0),
+    # (C) read_have_chunk (not interested branch) also raises interest for a piece listed in the transfer list
+    ("c04_have_listed_raises", "src/protocol/peer_connection_leech.cc",
+     r"if \(m_download->chunk_selector\(\)->received_have_chunk\(&m_peer_chunks, index\)( \|\|\s*transfers->find\(index\) != transfers->end\(\))?\) \{\s*m_send_interested = !m_down_interested;",
+     "N", lambda m: 1 if m.group(1) else 0),
+    # (E) try_request_pieces' loop guard counts only valid queued transfers
+    ("c04_pipe_counts_valid", "src/protocol/peer_connection_base.cc",
+     r"while \(request_list\(\)->queued_(valid_)?size\(\) < pipeSize && m_up->can_write_request\(\)\)",
+     "N", lambda m: 1 if m.group(1) else 0),
+    # try_request_pieces: 'Don't start requesting if we can't do it in large enough chunks': pipe_size() >= (pipeSize + A) / B
+    ("c04_pipe_gate_add", "src/protocol/peer_connection_base.cc", r"if \(request_list\(\)->pipe_size\(\) >= \(pipeSize \+ (\d+)\) / \d+\)", "N"),
+    ("c04_pipe_gate_div", "src/protocol/peer_connection_base.cc", r"if \(request_list\(\)->pipe_size\(\) >= \(pipeSize \+ \d+\) / (\d+)\)", "N"),
 ]
